@@ -494,7 +494,8 @@ def oracle_c11(res, r, tier):
     # many foldable expressions in one module: long enough for concurrent calls to interleave inside the folding
     big = ['\n'.join('SIZE_%d_%d = %d * %d + %d - %d' % (k, i, 3 + i, 7 + k, i * k, k) for i in range(120)) + '\n' for k in range(4)]
     # a source nested far deeper than the interpreter's default recursion limit allows, and one comfortably below it
-    big.append('deep = ' + ' + '.join('term_%d' % i for i in range(3000)) + '\n')
+    big.append('deep = ' + ' + '.join('term_%d' % i for i in range(800)) + '\n')
+    big.append('deeper = ' + ' + '.join('term_%d' % i for i in range(3000)) + '\n')
     big.append('shallow = ' + ' + '.join('term_%d' % i for i in range(60)) + '\n')
     for b_ in big:
         cases.append({'source': b_, 'options': {}})
@@ -596,6 +597,10 @@ def oracle_c11(res, r, tier):
         [t.join() for t in ths]
     finally:
         sys.setswitchinterval(old_interval)
+    state2 = process_state()
+    if state2 != state0:
+        changed = [k for k, a_, b_ in zip(('recursion limit', 'working directory', 'switch interval', 'warning filters', 'sys.path', 'environment', 'optimize flag'), state0, state2) if a_ != b_]
+        res.add_violation('c11-process-state-changed', 'concurrent minify calls left process-wide interpreter state changed: %s' % changed, {'changed': changed, 'before': repr(state0[:4]), 'after': repr(state2[:4])})
     want_big = {c['source']: b for c, b in zip(cases, ref) if c['source'] in big}
     for k in stress:
         for b_, got in stress[k]:
